@@ -8,6 +8,9 @@ import Proofs.DeconvAdjoint
 import Proofs.ConvAdjoint
 import Proofs.MaxpoolAdjoint
 import Proofs.DenseStack
+import Proofs.ConvVJP
+import Proofs.DeconvVJP
+import Proofs.MaxpoolVJP
 
 /-!
 # C01 — backpropagated gradients are the true derivatives of the objective
@@ -275,6 +278,67 @@ theorem maxpool_gradient_is_transpose (l : Maxpool ℝ) (hl : l.loops = 1) (max 
       (pos.map (fun p => L.get3D 0 og p.1 p.2.1 p.2.2 *
         ((L.get3D [] max p.1 p.2.1 p.2.2).map (fun q => L.get3D 0 v p.1 q.1 q.2)).sum)).sum :=
   MaxpoolAdjoint.route_adjoint l hl max og v pos ic ih iw hpos
+
+/-! ### spatial layers as differentiable vector functions: the model's backward passes are their
+transposed Jacobians
+
+`ConvVJP.convPre`, `DeconvVJP.deconvPre`, `MaxpoolVJP.select` are the layers' pre-activation maps on
+vectors indexed by `Fin c × Fin h × Fin w`, defined *through the model's own functions* (`convolveAt`,
+`Deconv.scatter`, the recorded indices); `convBwd`, `convBwdK`, `deconvBwd`, `deconvBwdK`, `routeV` are
+what the model's backward passes (`Conv.crop ∘ paddedInputGrad`, `kernelGrad`, `Deconv.gradPass`,
+`Maxpool.route`) return.  With `isVJP_elementwise` (the activation) and `isVJP_reindex` (flatten /
+reshape) these are the building blocks of `heterogeneous_walk_is_gradient` below. -/
+
+open ConvVJP in
+/-- convolution, input: every stride, dilation, padding, kernel size, channel and filter count -/
+theorem conv_backward_is_transposed_jacobian (l : Conv ℝ) (ks : List (V3 ℝ)) (kf kc kh kw ih iw oh ow : ℕ)
+    (hkc : 0 < kc) (hih : 0 < ih) (x : V (I3 kc ih iw)) :
+    IsVJP (convPre l ks kf kc kh kw ih iw oh ow) x (convBwd l ks kf kc kh kw ih iw oh ow) :=
+  conv_isVJP l ks kf kc kh kw ih iw oh ow hkc hih x
+
+open ConvVJP in
+/-- convolution with its element-wise activation (differentiable at every pre-activation) -/
+theorem conv_layer_backward_is_transposed_jacobian (l : Conv ℝ) (ks : List (V3 ℝ)) (kf kc kh kw ih iw oh ow : ℕ)
+    (a : Act) (ha : a ≠ .softmax) (hkc : 0 < kc) (hih : 0 < ih) (x : V (I3 kc ih iw))
+    (hk : ∀ i, NoKink a (convPre l ks kf kc kh kw ih iw oh ow x i)) :
+    IsVJP (fun y => fun i => Act.f a (convPre l ks kf kc kh kw ih iw oh ow y i)) x
+      (fun g => convBwd l ks kf kc kh kw ih iw oh ow
+        (fun i => Act.df a (convPre l ks kf kc kh kw ih iw oh ow x i) * g i)) :=
+  conv_layer_isVJP l ks kf kc kh kw ih iw oh ow (Act.f a) (Act.df a) hkc hih x
+    (fun i => act_hasDerivAt a ha _ (hk i))
+
+open ConvVJP in
+/-- convolution, kernels -/
+theorem conv_kernel_gradient_is_transposed_jacobian (l : Conv ℝ) (kf kc kh kw oh ow : ℕ) (xp : V3 ℝ) (ph pw : ℕ)
+    (K : V (I4 kf kc kh kw)) :
+    IsVJP (convPreK l kf kc kh kw oh ow xp ph pw) K (convBwdK l kf kc kh kw oh ow xp ph pw) :=
+  conv_kernel_isVJP l kf kc kh kw oh ow xp ph pw K
+
+open ConvVJP DeconvVJP in
+/-- deconvolution, input and kernels -/
+theorem deconv_backward_is_transposed_jacobian (l : Deconv ℝ) (kf kc kh kw ih iw oh ow : ℕ) (ks : List (V3 ℝ))
+    (x0 : V3 ℝ) (x : V (I3 kc ih iw)) (K : V (I4 kf kc kh kw)) :
+    IsVJP (deconvPre l kf kc kh kw ih iw oh ow ks) x (deconvBwd l kf kc kh kw ih iw oh ow ks x0) ∧
+    IsVJP (deconvPreK l kf kc kh kw ih iw oh ow x0) K (deconvBwdK l kf kc kh kw ih iw oh ow x0 ks) :=
+  ⟨deconv_isVJP l kf kc kh kw ih iw oh ow ks x0 x, deconv_kernel_isVJP l kf kc kh kw ih iw oh ow x0 ks K⟩
+
+open ConvVJP MaxpoolVJP in
+/-- max-pool (away from ties the pool is locally the selection of the recorded positions) -/
+theorem maxpool_backward_is_transposed_jacobian (l : Maxpool ℝ) (max : MaxIdx) (ic ih iw oh ow : ℕ) (hl : l.loops = 1)
+    (hidx : ∀ c h w, c < ic → h < oh → w < ow → ∀ q ∈ L.get3D [] max c h w, q.1 < ih ∧ q.2 < iw)
+    (x : V (I3 ic ih iw)) :
+    IsVJP (select max ic ih iw oh ow) x (routeV l max ic ih iw oh ow) :=
+  maxpool_isVJP l max ic ih iw oh ow hl hidx x
+
+/-- **any mix and order of layer kinds, any depth**: a stack between arbitrary finite index types whose
+    layers' backward functions are their transposed Jacobians (dense, convolution, deconvolution,
+    max-pool, activations, flatten — the theorems above) yields, by the reverse walk, the gradient of
+    any differentiable objective; every coordinate is the partial derivative -/
+theorem heterogeneous_walk_is_gradient {a c : Idx} [DecidableEq a.T] (net : GNet a c) (x : V a.T) (h : net.Ok x)
+    (ℓ : V c.T → ℝ) (g : V c.T) (hl : IsGrad ℓ (net.fwd x) g) (j : a.T) :
+    IsGrad (ℓ ∘ net.fwd) x (net.bwd x g) ∧
+    HasDerivAt (fun r => ℓ (net.fwd (Function.update x j r))) (net.bwd x g j) (x j) :=
+  ⟨GNet.grad net x h ℓ g hl, (GNet.grad net x h ℓ g hl).partial j⟩
 
 /-! ### the soft-max output layer, end to end -/
 
